@@ -109,8 +109,21 @@ func init() {
 			step = 2
 		}
 		vb := []wire.Node{{K: "var", S: wire.Bytes("b")}}
-		for i := 0; i < len(strs); i += step {
-			for j := 0; j < len(strs); j += step {
+		dstRows, err := readNDJSON[strRow](filepath.Join(rc.Dir, "dststrings.ndjson"))
+		if err != nil {
+			rc.infra("%v", err)
+			return
+		}
+		isDST := map[string]bool{}
+		for _, r := range dstRows {
+			isDST[wire.Str(r.S)] = true
+		}
+		for i := 0; i < len(strs); i++ {
+			for j := 0; j < len(strs); j++ {
+				// every step-th string, and every pair of values around the DST transitions
+				if !(i%step == 0 && j%step == 0) && !(isDST[wire.Str(strs[i].S)] && isDST[wire.Str(strs[j].S)]) {
+					continue
+				}
 				vars := []wire.Var{{K: wire.Bytes("a"), V: strs[i]}, {K: wire.Bytes("b"), V: strs[j]}}
 				for _, op := range []string{"lt", "eq", "ge"} {
 					for _, m := range []string{"datetime", "timestamp_tz", "time_tz"} {
@@ -125,7 +138,7 @@ func init() {
 			}
 		}
 		rc.cov("exhaustive", true)
-		rc.cov("rule", "grid of 222 ISO-8601 strings (five types; offsets Z, +00, -04, -04:30, +05:30, -12, +14; day / month / year / leap-day boundaries 0001-01-01 .. 9999-12-31; 0..9 fractional digits) plus 22 malformed strings and non-string items x six datetime methods, with .type() and .string(), precisions 0..7 x {WithTZ, not} x context zones {UTC, +05:30, America/New_York} (thorough also -04:00); pairwise comparisons (every 5th string, thorough every 2nd) with < == >= through .datetime() and after explicit casts to the common type; every result judged against spec/DateTime.tla")
+		rc.cov("rule", "grid of 222 ISO-8601 strings (five types; offsets Z, +00, -04, -04:30, +05:30, -12, +14; day / month / year / leap-day boundaries 0001-01-01 .. 9999-12-31; 0..9 fractional digits) plus 22 malformed strings and non-string items x six datetime methods, with .type() and .string(), precisions 0..7 x {WithTZ, not} x context zones {UTC, +05:30, America/New_York} (thorough also -04:00); pairwise comparisons (every 5th string, thorough every 2nd, and all pairs of 15 values in and around the hours America/New_York skips and repeats) with < == >= through .datetime() and after explicit casts to the common type; every result judged against spec/DateTime.tla")
 		rc.cov("universe", map[string]any{"strings": len(strs), "cases": len(u.Cases)})
 		rc.execFamily(u, "C17", "C01")
 	}
